@@ -34,8 +34,10 @@ Theorem C17_never_panics : forall sniff ctm h0 accept ae ops,
 Proof. exact never_panics. Qed.
 Print Assumptions C17_never_panics.
 
-(* Compressed only if the request passes the code's Accept-Encoding test, the content type
-   of the delivered response matches the expression, and the upstream did not encode it. *)
+(* Compressed only if the request passes acceptsGzip (as of commits 7cff601 + bfb8a14: some element
+   of the first Accept-Encoding line is named gzip / x-gzip, case-insensitively, and is not
+   "q=<zeros and dots>" in either case), the content type of the delivered response matches the
+   expression, and the upstream did not encode it. *)
 Theorem C17_compressed_only_if : forall sniff ctm h0 accept ae ops f,
   o_fed (handler sniff ctm h0 accept ae ops) = Some f ->
   accepts_gzip accept ae = true
@@ -44,18 +46,43 @@ Theorem C17_compressed_only_if : forall sniff ctm h0 accept ae ops f,
 Proof. exact compressed_only_if. Qed.
 Print Assumptions C17_compressed_only_if.
 
-(* ... where the code's test is weaker than RFC 9110: "gzip;q=0" refuses gzip and is compressed. *)
+(* A compressed response goes only to a client that accepts gzip in the RFC 9110 12.5.3 reading
+   (some gzip / x-gzip entry with a non-zero weight, else "*"): for EVERY request -- no
+   known-finding region is left. *)
+Theorem C17_compressed_only_if_rfc_on_domain : forall sniff ctm h0 accept ae ops f,
+  o_fed (handler sniff ctm h0 accept ae ops) = Some f -> rfc_accepts_gzip ae = true.
+Proof. exact compressed_only_if_rfc_on_domain. Qed.
+Print Assumptions C17_compressed_only_if_rfc_on_domain.
+
+(* Before commit 7cff601 the test was a substring test: "gzip;q=0" refuses gzip and was compressed
+   (fixed finding F-C17-1 as first recorded). *)
 Theorem C17_accept_q0_refuted : forall sniff, exists ae ops f,
-  rfc_accepts_gzip ae = false /\ o_fed (handler sniff (fun _ => true) [] [] ae ops) = Some f.
+  rfc_accepts_gzip ae = false /\ o_fed (handler_q0_unrepaired sniff (fun _ => true) [] [] ae ops) = Some f.
 Proof. exact accept_q0_refuted. Qed.
 Print Assumptions C17_accept_q0_refuted.
 
-(* Outside that region a compressed response goes only to a client that accepts gzip (RFC reading). *)
-Theorem C17_compressed_only_if_rfc_on_domain : forall sniff ctm h0 accept ae ops f,
-  o_fed (handler sniff ctm h0 accept ae ops) = Some f ->
-  q0_region ae = false -> rfc_accepts_gzip ae = true.
-Proof. exact compressed_only_if_rfc_on_domain. Qed.
-Print Assumptions C17_compressed_only_if_rfc_on_domain.
+(* Between commits 7cff601 and bfb8a14 (name matched by substring, "q=" case-sensitively) two
+   refusals were still missed, "gzip;Q=0" and "notgzip2"; the code as it is refuses both. *)
+Theorem C17_accept_q0_residual_refuted : forall sniff,
+  let ops := [SetHeader H_CT (bs "text/html"); Write (bs "hello")] in
+  rfc_accepts_gzip [bs "gzip;Q=0"] = false
+  /\ o_fed (handler_q0_7cff601 sniff (fun _ => true) [] [] [bs "gzip;Q=0"] ops) = Some (bs "hello")
+  /\ rfc_accepts_gzip [bs "notgzip2"] = false
+  /\ o_fed (handler_q0_7cff601 sniff (fun _ => true) [] [] [bs "notgzip2"] ops) = Some (bs "hello")
+  /\ o_fed (handler sniff (fun _ => true) [] [] [bs "gzip;Q=0"] ops) = None
+  /\ o_fed (handler sniff (fun _ => true) [] [] [bs "notgzip2"] ops) = None.
+Proof. exact accept_q0_residual_refuted. Qed.
+Print Assumptions C17_accept_q0_residual_refuted.
+
+(* Spellings the code as it is refuses / accepts. *)
+Theorem C17_accept_q0_repaired :
+  forallb (fun v => negb (accepts_gzip [] [bs v]))
+    ["gzip;q=0"; "gzip; q=0.0"; "gzip ; q=0"; "identity;q=1, gzip;q=0"; "deflate, gzip;q=0.000"; "gzip;q=0."; "x-gzip;q=0";
+     "gzip;Q=0"; "gzip; Q=0.0"; "deflate, gzip;Q=0"; "Gzip;q=0"; "notgzip2"; "deflate"; ""]%string = true
+  /\ forallb (fun v => accepts_gzip [] [bs v])
+    ["gzip"; "GZIP"; "X-GZIP"; " gzip "; "deflate, gzip;q=0.5"; "gzip;q=0, x-gzip"; "gzip;q=0;x=1"]%string = true.
+Proof. exact q0_repaired. Qed.
+Print Assumptions C17_accept_q0_repaired.
 
 (* A compressed response is labelled Content-Encoding: gzip and carries no Content-Length. *)
 Theorem C17_gzip_labelled_no_length : forall sniff ctm h0 accept ae ops f,
